@@ -62,7 +62,8 @@ def confirm(mdir, meta):
         os.makedirs(os.path.dirname(target), exist_ok=True)
         shutil.copy(demo, target)
         pkg = "./" + os.path.dirname(dpath)
-        rc0, out0 = sh(["go", "test", "-vet=off", "-count=1", "-run", "Demo|demo|C[0-9][0-9]", pkg], cwd=wt)
+        race = ["-race"] if "-race" in json.dumps(meta) else []
+        rc0, out0 = sh(["go", "test", "-vet=off", "-count=1"] + race + ["-run", "Demo|demo|C[0-9][0-9]", pkg], cwd=wt)
         log["demo_without_change"] = "pass" if rc0 == 0 else "FAIL: " + out0[-600:]
         os.remove(target)
         sh(["git", "apply", patch], cwd=wt)
@@ -71,7 +72,7 @@ def confirm(mdir, meta):
         rc, out = sh("go test -vet=off -count=1 $(go list ./... | grep -v internal/wordlists)", cwd=wt, timeout=3000)
         log["existing_tests"] = "pass" if rc == 0 else "FAIL: " + out[-1200:]
         shutil.copy(demo, target)
-        rc1, out1 = sh(["go", "test", "-vet=off", "-count=1", "-run", "Demo|demo|C[0-9][0-9]", pkg], cwd=wt)
+        rc1, out1 = sh(["go", "test", "-vet=off", "-count=1"] + race + ["-run", "Demo|demo|C[0-9][0-9]", pkg], cwd=wt)
         log["demo_with_change"] = "fails (as intended)" if rc1 != 0 else "PASSES (change not demonstrated)"
         log["demo_failure_excerpt"] = out1[-500:] if rc1 != 0 else ""
         ok = rc0 == 0 and log["build"] == "ok" and log["existing_tests"] == "pass" and rc1 != 0
